@@ -28,6 +28,7 @@ pub mod c11;
 #[cfg(feature = "real")]
 pub mod c14;
 pub mod c15;
+pub mod c17;
 pub mod c20;
 pub mod common;
 pub mod hon;
